@@ -70,13 +70,14 @@ PROPS = {
         "assumed": [],
     },
     "C19": {
+        "verus": [("verify_history", ["verify_with_history_params", "key_history_verify"]), ("auditor", ["audit_verify"])],
         "kani": ["c19"],
         "search": True,
         "always_search": True,
         "bounded_search": [
             {"obligation": "proto/whole_proof#roundtrip", "bound": "real lookup / history (Complete, MostRecent(1), MostRecent(2)) / append-only proofs of a 3-epoch directory, both configurations: proof -> proto message -> wire bytes -> message -> proof is identical and verifies to the same result"},
             {"obligation": "proto/whole_proof#no_panic", "bound": "every truncation (first 400 lengths) and 300 seeded single-bit flips of each of those encodings: decoding returns Err or Ok, never panics"}],
-        "scope": "partial (label / digest / direction codecs and component round trips, Kani on the compiled crate): minimal-label encode/decode round trip for all 2^256 values; "
+        "scope": "no arithmetic overflow (hence no overflow panic) in the history verifier and the auditor for ANY decoded proof - counters at u64::MAX included (Verus #body obligations of verify_with_history_params / key_history_verify / audit_verify, without the former R_nooverflow assumptions; C19-D14); partial (label / digest / direction codecs and component round trips, Kani on the compiled crate): minimal-label encode/decode round trip for all 2^256 values; "
                  "NodeLabel, AzksElement, SiblingProof -> proto -> back is the identity; over-long label value, label_len > 256, missing fields and wrong-size digests are rejected "
                  "without panic; the direction field decodes only to 0/1 after masking. Whole proofs (composite converters: Kani did not finish within 15 min even with concrete labels) are "
                  "covered by a BOUNDED enumeration on the real code, see bounded.",
@@ -98,7 +99,7 @@ PROPS = {
         "trusted": ["Azks::new / batch_insert_nodes / get_root_hash external: the root hash is a function of (start epoch, inserted node set, mode) for one insertion into a fresh manager",
                     "collision resistance for 'replacing any root hash makes verification fail'",
                     "assumed std contracts: <[T]>::sort_unstable_by returns a rearrangement ordered by the comparator; <[u8; 32] as Ord>::cmp is byte-wise lexicographic (cross-checked by Kani c17_cmp_contract); Ordering::then"],
-        "assumed": ["attacker-supplied epochs are < u64::MAX and the epoch list is shorter than usize::MAX (overflow guards)"],
+        "assumed": ["the epoch list is shorter than usize::MAX (overflow guard)"],
     },
     "C01": {
         "verus": ["directory_publish", ("azks_audit", ["Azks.batch_insert_nodes", "Azks.increment_epoch", "AzksElementSet.deref"]),
@@ -315,7 +316,7 @@ PROPS = {
                  "the value check is skipped only in AllowMissingValues mode for an empty value. Ground truth of the honest history is not decided.",
         "trusted": ["T4 ECVRF and configuration hashes as in C06", "get_marker_versions is a function of its arguments (determinism); what it contains is proved under C08",
                     "desugarings R-FMT, R-FOREACH, R-ENUM, R-UNDERSCORE applied to verify_with_history_params / key_history_verify (syntax only; listed in desugarings_applied)"],
-        "assumed": ["attacker-supplied versions are < u64::MAX (precondition; curr_version + 1 would overflow otherwise: debug panic / release wrap, outcome still Err) - DESIGN D8"],
+        "assumed": [],
     },
     "C06": {
         "verus": ["verify_lookup", ("verify_base", BASE_VERIFY_FNS)],
@@ -367,12 +368,12 @@ PROPS = {
     },
     "C08": {
         "verus": ["markers", ("verify_history", ["verify_with_history_params", "key_history_verify", "verify_single_update_proof", "lemma_l2", "lemma_consecutive"]),
-                  ("verify_lookup", ["lookup_verify"])],
+                  ("verify_lookup", ["lookup_verify"]), ("verify_base", BASE_VERIFY_FNS)],
         "search": True,
         "always_search": True,
         "scope": "get_marker_versions contains the closed-form marker sets for all u64 (s, e, E); lemma L1 (history vs history) for all n < m <= E and all ranges; "
                  "server/verifier marker-exponent agreement; L2: an accepted complete history for n shows the stale leaf of every m < n present (the leaf an accepted lookup for m shows absent), "
-                 "over the verifier contracts of key_history_verify / lookup_verify. lookup(m > n) vs complete history(n) is a known finding (not a theorem).",
+                 "over the verifier contracts of key_history_verify / lookup_verify (an accepted lookup is for a version <= the epoch it is verified at) and of the base verifiers they rest on ('shown present' = the fold reaches the root, 'shown absent' = anchored at the deepest prefix whose two reported children hash to the anchor). lookup(m > n) vs complete history(n) is a known finding (not a theorem).",
         "trusted": ["T4 Merkle soundness turns 'shown present' and 'shown absent' for one (label, freshness, version) under one root into a contradiction (C05 + collision resistance)"],
         "assumed": [],
     },
